@@ -161,3 +161,49 @@ Proof.
   apply (C15_step_contraction n c f a sigma (repeat 0 n) (repeat 0 n) r1 r2 x); auto using repeat_length.
 Qed.
 Print Assumptions C15_generated_step_contraction.
+
+(* ================================================================================================================
+   The R-vs-Q instance gap, closed by proof for the runner's verdict [chk_pair] (base/NumHom.v, proofs/QR_bridge_C01.v,
+   proofs/QR_bridge_C15.v).
+   The theorems above are about model/Reservoir.v at F := R.  The correspondence run (run/RunC01.v, chk_pair) executes the SAME
+   term at F := Q from two start states on the same inputs, compares both trajectories with reservoirpy's, certifies sigma
+   (sigma >= 0, sigma^2 >= squared Frobenius norm of W, exact rational arithmetic) and evaluates the squared contraction
+   inequality of C15_step_contraction_squared exactly on the model's own numbers at every step, plus the box [-1,1] when asked.
+   Since the run at Q embeds onto the run at R (C01 bridge) and [Qle_bool] reflects [<=] on the embedded reals,
+   [chk_pair ... = true] implies, OVER R and for the R-instance of the model on the embedded parameters / start states / inputs:
+   both observed trajectories are within 1e-9*max(1,|model|) of the model's, 0 <= sigma, frob2 W <= sigma^2 (the premise of
+   C15_frobenius_bound), 0 <= lr <= 1, [contractingR rho^2 d0 [d1; d2; ...]]: d(t) <= rho^2 * d(t-1) for the squared distances
+   d(t) = |xa[t] - xb[t]|^2 with d0 the squared distance of the start states and rho = (1 - lr) + lr * sigma, and (box) every
+   component of every row in [-1, 1].  Exact activations only ([exact_act]: identity, relu, hard-tanh, x/2). *)
+From RV Require Import base.NumHom proofs.QR_bridge_C01 proofs.QR_bridge_C15 run.RunC01.
+
+Theorem C15_chk_pair_is_about_R_model (W Win : list (list Q)) (bias : list Q) (lr sigma : Q) (act : actc) (box : bool)
+    (ra rb : list Q) (us : list (list Q)) (outsa outsb : list (list Q)) :
+  exact_act act = true ->
+  chk_pair W Win bias lr sigma act box ra rb us outsa outsb = true ->
+  let cR := cfg2r (mkcfg W Win bias None (LrS lr) act AId) (act_funR act) (act_funR AId) in
+  let xs := map in2r (map mkin (combine us (map (fun _ => []) us))) in
+  let oa := run_outputs Internal cR ([], qv2r ra) xs in
+  let ob := run_outputs Internal cR ([], qv2r rb) xs in
+  let rho := ((1 - Q2R lr) + Q2R lr * Q2R sigma)%R in
+  mrclose oa (qm2r outsa) /\ mrclose ob (qm2r outsb) /\
+  (0 <= Q2R sigma)%R /\ (ESP_proofs.frob2 (qm2r W) <= Q2R sigma * Q2R sigma)%R /\ (0 <= Q2R lr <= 1)%R /\
+  contractingR (rho * rho)%R (vnorm2 (vsub (qv2r ra) (qv2r rb))) (map (fun p => vnorm2 (vsub (fst p) (snd p))) (combine oa ob)) /\
+  (box = true -> Forall in_boxR oa /\ Forall in_boxR ob).
+Proof. exact (chk_pair_is_about_R_model W Win bias lr sigma act box ra rb us outsa outsb). Qed.
+
+(* what [contractingR] gives: geometric decay of the squared distance, step by step *)
+Theorem C15_contractingR_geometric (rho2 : R) : (0 <= rho2)%R -> forall ds prev, contractingR rho2 prev ds ->
+  forall t, (t < length ds)%nat -> (nth t ds 0 <= rho2 ^ (S t) * prev)%R.
+Proof. exact (contractingR_geometric rho2). Qed.
+
+(* non-vacuity: 2 units, hard-tanh, lr = 1/2, sigma = 7/8 (49/64 >= 9/16 = squared Frobenius norm), three steps from two
+   different start states; the two trajectories differ *)
+Example C15_chk_pair_example :
+  chk_pair c15_W c15_Win [(1#2)%Q; 0%Q] (1#2)%Q (7#8)%Q AHard true [1%Q; 1%Q] [(-1#1)%Q; 0%Q] c15_us
+           (c15_run [1%Q; 1%Q]) (c15_run [(-1#1)%Q; 0%Q]) = true /\
+  c15_run [1%Q; 1%Q] <> c15_run [(-1#1)%Q; 0%Q].
+Proof. exact chk_pair_example. Qed.
+
+Print Assumptions C15_chk_pair_is_about_R_model.
+Print Assumptions C15_contractingR_geometric.
